@@ -176,40 +176,42 @@ def coq_failure_site(out: str) -> str:
 
 
 def props_check(prop: str) -> dict:
-    """Compile Props/<prop>.v (and deps); return theorems and their assumptions."""
+    """Compile Props/<prop>.v and, when present, Props/<prop>_refuted.v (and deps); return theorems and their assumptions."""
     res = {"ok": False, "theorems": [], "assumptions": {}, "log": "", "site": ""}
-    ok, out = coq_make([f"Props/{prop}.vo"])
+    files = [prop] + ([prop + "_refuted"] if (COQ / "Props" / f"{prop}_refuted.v").exists() else [])
+    ok, out = coq_make([f"Props/{f}.vo" for f in files])
     if not ok:
         res["log"] = out[-6000:]
         res["site"] = coq_failure_site(out)
         return res
-    # re-run coqc on the property file alone to capture Print Assumptions output
-    with Lock("coq"):
-        (BUILD / "chk").mkdir(parents=True, exist_ok=True)
-        rc, out2, _ = run(["coqc", "-Q", ".", "BE", "-w", "-notation-overridden", "-o", str(BUILD / "chk" / f"{prop}.vo"), f"Props/{prop}.v"], cwd=COQ, timeout=900)
-    if rc != 0:
-        res["log"] = out2[-6000:]
-        res["site"] = coq_failure_site(out2)
-        return res
-    src = (COQ / "Props" / f"{prop}.v").read_text()
-    src_nc = re.sub(r"\(\*.*?\*\)", "", src, flags=re.S)
-    thms = re.findall(r"^\s*(?:Theorem|Corollary)\s+(\w+)", src_nc, flags=re.M)
-    pa = re.findall(r"Print Assumptions\s+(\w+)", src_nc)
-    res["theorems"] = thms
-    # parse output: sequence of blocks, one per Print Assumptions, in order
-    blocks = re.split(r"(?=Closed under the global context|Axioms:)", out2)
-    blocks = [b for b in blocks if b.startswith("Closed under") or b.startswith("Axioms:")]
-    for name, b in zip(pa, blocks):
-        if b.startswith("Closed under"):
-            res["assumptions"][name] = []
-        else:
-            ax = re.findall(r"^([\w\.]+)\s*:", b, flags=re.M)
-            res["assumptions"][name] = ax
-    missing = [t for t in thms if t not in res["assumptions"]]
-    if missing:
-        res["log"] = "Print Assumptions missing for: " + ", ".join(missing)
-        res["site"] = f"Props/{prop}.v"
-        return res
+    for f in files:
+        # re-run coqc on the property file alone to capture Print Assumptions output
+        with Lock("coq"):
+            (BUILD / "chk").mkdir(parents=True, exist_ok=True)
+            rc, out2, _ = run(["coqc", "-Q", ".", "BE", "-w", "-notation-overridden", "-o", str(BUILD / "chk" / f"{f}.vo"), f"Props/{f}.v"], cwd=COQ, timeout=900)
+        if rc != 0:
+            res["log"] = out2[-6000:]
+            res["site"] = coq_failure_site(out2)
+            return res
+        src = (COQ / "Props" / f"{f}.v").read_text()
+        src_nc = re.sub(r"\(\*.*?\*\)", "", src, flags=re.S)
+        thms = re.findall(r"^\s*(?:Theorem|Corollary)\s+(\w+)", src_nc, flags=re.M)
+        pa = re.findall(r"Print Assumptions\s+(\w+)", src_nc)
+        res["theorems"] += thms
+        # parse output: sequence of blocks, one per Print Assumptions, in order
+        blocks = re.split(r"(?=Closed under the global context|Axioms:)", out2)
+        blocks = [b for b in blocks if b.startswith("Closed under") or b.startswith("Axioms:")]
+        for name, b in zip(pa, blocks):
+            if b.startswith("Closed under"):
+                res["assumptions"][name] = []
+            else:
+                ax = re.findall(r"^([\w\.]+)\s*:", b, flags=re.M)
+                res["assumptions"][name] = ax
+        missing = [t for t in thms if t not in res["assumptions"]]
+        if missing:
+            res["log"] = "Print Assumptions missing for: " + ", ".join(missing)
+            res["site"] = f"Props/{f}.v"
+            return res
     res["ok"] = True
     return res
 
@@ -463,12 +465,12 @@ class Ctx:
             self.broke("forbidden-construct-scan", "; ".join(bad[:5]))
         r = props_check(self.prop)
         self.extra["coq_log_tail"] = r["log"][-1500:] if not r["ok"] else ""
-        src = (COQ / "Props" / f"{self.prop}.v")
         names = []
-        if src.exists():
-            src_nc = re.sub(r"\(\*.*?\*\)", "", src.read_text(), flags=re.S)
-            names = re.findall(r"^\s*(?:Theorem|Corollary)\s+(\w+)", src_nc, flags=re.M)
-        names = names + (extra_obligations or [])
+        for src in (COQ / "Props" / f"{self.prop}.v", COQ / "Props" / f"{self.prop}_refuted.v"):
+            if src.exists():
+                src_nc = re.sub(r"\(\*.*?\*\)", "", src.read_text(), flags=re.S)
+                names += re.findall(r"^\s*(?:Theorem|Corollary)\s+(\w+)", src_nc, flags=re.M)
+        names = names + [n for n in (extra_obligations or []) if n.split(" ")[0] not in names]
         self.obligations += names
         if r["ok"]:
             self.discharged += names
